@@ -132,11 +132,15 @@ def session(concepts, seed, sid):
             op = rng.randrange(16)
             if op == 0:
                 args = (rng.choice(pool_o), rng.sample(pool_p, rng.randint(2, 4)))
+                if step % 3 == 1:   # an ordered, re-iterable, set-like container of names
+                    args = (args[0], dict.fromkeys(args[1] + ['-view%d' % step, '-viewer%d' % step, '-viewest%d' % step]).keys())
                 if step % 3 == 0:
                     args = (args[0], args[1] + ['-set%d' % step, '-setter%d' % step, '-set%d' % step, '-settest%d' % step])
                 rec(f'set_object{args}', lambda: (d.set_object(*args), state()))
             elif op == 1:
                 args = (rng.choice(pool_p), rng.sample(pool_o, rng.randint(2, 4)))
+                if step % 3 == 1:
+                    args = (args[0], dict.fromkeys(args[1] + ['view%d!' % step, 'viewer%d!' % step, 'viewest%d!' % step]).keys())
                 if step % 3 == 0:
                     args = (args[0], args[1] + ['set%d!' % step, 'setter%d!' % step, 'set%d!' % step, 'settest%d!' % step])
                 rec(f'set_property{args}', lambda: (d.set_property(*args), state()))
@@ -171,6 +175,11 @@ def session(concepts, seed, sid):
                 rec(f'take-keyviews{names}{pnames}',
                     lambda: repr(d.take(dict.fromkeys(names + ['ghost9', 'ghost8']).keys(), dict.fromkeys(pnames).keys())))
                 rec(f'take-dict{names}', lambda: repr(d.take(dict.fromkeys(['ghost7', 'ghost6', 'ghost5'] + names))))
+                ko = dict.fromkeys(rng.sample(list(d.objects), min(len(d.objects), 3))).keys() if d.objects else None
+                kp = dict.fromkeys(rng.sample(list(d.properties), min(len(d.properties), 3))).keys() if d.properties else None
+                rec('take-keyviews-reorder', lambda: repr(d.take(ko, kp, reorder=True)))
+                rec('definition-from-keyviews', lambda: repr(D(dict.fromkeys(pool_o).keys(), dict.fromkeys(pool_p).keys(),
+                                                               [tuple((i + j) % 3 == 0 for j in range(len(pool_p))) for i in range(len(pool_o))])))
             elif op == 8:
                 rec('remove_empty', lambda: (d.remove_empty_objects(), d.remove_empty_properties(), state()))
             elif op == 9 and d.objects:
